@@ -368,7 +368,7 @@ SUBS = [
     Sub('energy', _energy_strategy, check_energy, quick=48, thorough=600,
         rule='8 classical models: k0 - k0edges on non-prescribed amplitudes vs Hessian of the surface integral of the package own linear '
              'strain field (cones: Richardson in s with the 1/s^2 rate asserted); non-trivial = cone', shards_quick=16),
-    Sub('edges', _edges_strategy, check_edges, quick=64, thorough=1000,
+    Sub('edges', _edges_strategy, check_edges, quick=192, thorough=2000,
         rule='k0edges for every model: symmetric PSD, zero for zero stiffnesses, linear in and additive over the ten edge stiffnesses',
         shards_quick=16),
 ]
